@@ -72,3 +72,29 @@ package controllerv1
 //@     invariant i == 0 ==> respLast == 91
 //@     invariant i != 0 ==> respLast != 91 && respLast != 44
 //@     modifies respLast
+
+// Tempo tag names and tag values: one JSON array of JSON strings. Every element is
+// the JSON string literal of the tag (Go's strconv.Quote is not JSON: \x01, \a, \v
+// and \U escapes are rejected by every JSON parser), separators as in Search.
+//@ func (*TempoController).Tags [C15]
+//@   flag checks=-assert,-index
+//@   at ResponseWriter).Write$ separator-follows-an-element: len(arg0) == 1 && int(arg0[0]) == 44 ==> respLast != 91 && respLast != 44
+//@   at ResponseWriter).Write$ element-is-a-json-string: len(arg0) > 0 && !(len(arg0) == 1 && int(arg0[0]) == 44) && int(arg0[0]) != 123 && int(arg0[0]) != 93 ==> str(arg0) == jsonStr(tag)
+//@   at ResponseWriter).Write$ element-follows-bracket-or-separator: len(arg0) > 0 && !(len(arg0) == 1 && int(arg0[0]) == 44) && int(arg0[0]) != 123 && int(arg0[0]) != 93 ==> respLast == 91 || respLast == 44
+//@   at ResponseWriter).Write$ array-closed-after-bracket-or-element: len(arg0) == 2 && int(arg0[0]) == 93 ==> respLast != 44
+//@   loop 1:
+//@     invariant i >= 0
+//@     invariant i == 0 ==> respLast == 91
+//@     invariant i != 0 ==> respLast != 91 && respLast != 44
+//@     modifies respLast
+//@ func (*TempoController).Values [C15]
+//@   flag checks=-assert,-index
+//@   at ResponseWriter).Write$ separator-follows-an-element: len(arg0) == 1 && int(arg0[0]) == 44 ==> respLast != 91 && respLast != 44
+//@   at ResponseWriter).Write$ element-is-a-json-string: len(arg0) > 0 && !(len(arg0) == 1 && int(arg0[0]) == 44) && int(arg0[0]) != 123 && int(arg0[0]) != 93 ==> str(arg0) == jsonStr(val)
+//@   at ResponseWriter).Write$ element-follows-bracket-or-separator: len(arg0) > 0 && !(len(arg0) == 1 && int(arg0[0]) == 44) && int(arg0[0]) != 123 && int(arg0[0]) != 93 ==> respLast == 91 || respLast == 44
+//@   at ResponseWriter).Write$ array-closed-after-bracket-or-element: len(arg0) == 2 && int(arg0[0]) == 93 ==> respLast != 44
+//@   loop 1:
+//@     invariant i >= 0
+//@     invariant i == 0 ==> respLast == 91
+//@     invariant i != 0 ==> respLast != 91 && respLast != 44
+//@     modifies respLast
